@@ -178,7 +178,7 @@ Fixpoint stmt_order_free (s : stmt) {struct s} : bool :=
   | SFor _ it test body => order_free it && go body
   | SSet _ e | SSetNs _ _ e => order_free e
   | SCallBlock c body => order_free c && go body
-  | SBlock _ body | SMacro _ _ body => go body
+  | SBlock _ body | SMacro _ _ _ body => go body
   | _ => true
   end.
 
@@ -191,7 +191,7 @@ Fixpoint has_set_loop (s : stmt) {struct s} : bool :=
   match s with
   | SFor _ it _ body => mentions_set it || go body
   | SIf _ t elifs f => go t || (fix ge (l : list (expr * list stmt)) : bool := match l with [] => false | (_, b) :: r => go b || ge r end) elifs || go f
-  | SCallBlock _ body | SBlock _ body | SMacro _ _ body => go body
+  | SCallBlock _ body | SBlock _ body | SMacro _ _ _ body => go body
   | _ => false
   end.
 Example set_loops_exist :
@@ -205,7 +205,7 @@ Fixpoint for_iters (s : stmt) {struct s} : list expr :=
   match s with
   | SFor _ it _ body => it :: go body
   | SIf _ t elifs f => go t ++ (fix ge (l : list (expr * list stmt)) : list expr := match l with [] => [] | (_, b) :: r => go b ++ ge r end) elifs ++ go f
-  | SCallBlock _ body | SBlock _ body | SMacro _ _ body => go body
+  | SCallBlock _ body | SBlock _ body | SMacro _ _ _ body => go body
   | _ => []
   end.
 Definition sorted_cs (e : expr) : bool :=
